@@ -128,10 +128,20 @@ func init() {
 	dnaTable.m['U']['U'] = dnaTable.m['T']['T']
 	dnaTable.has['U'] = true
 	dnaTable.letters += "U"
+	// X, the "unknown residue" symbol, is read as N in a nucleotide sequence (as EMBOSS does on input)
+	all := dnaTable.letters
+	for i := 0; i < len(all); i++ {
+		x := all[i]
+		dnaTable.m['X'][x] = dnaTable.m['N'][x]
+		dnaTable.m[x]['X'] = dnaTable.m[x]['N']
+	}
+	dnaTable.m['X']['X'] = dnaTable.m['N']['N']
+	dnaTable.has['X'] = true
+	dnaTable.letters += "X"
 }
 
 const (
-	dnaLetters  = "ATGCSWRYKMBVHDN" // + U, drawn rarely
+	dnaLetters  = "ATGCSWRYKMBVHDN" // + U and X (unknown base), drawn rarely
 	protLetters = "ARNDCQEGHILKMFPSTWYVBZX*"
 	protOnly    = "QEILFPZ" // letters that no nucleotide reading admits
 )
@@ -503,6 +513,11 @@ type swCase struct {
 	Sch  scheme `json:"scheme"`
 	// SetScoreFirst: call SetScore before the gap setters (the order must not matter)
 	SetScoreFirst bool `json:"setscorefirst"`
+	// Calls: when not empty, the exact history of setter calls made on the aligner (any order,
+	// repeated calls, earlier values overwritten later); the last call of each kind carries the
+	// values of Sch, a setter that is never called leaves the documented default (open -10,
+	// extend -0.5, built-in matrix)
+	Calls []setterCall `json:"calls,omitempty"`
 }
 
 func allIn(s string, t *table) bool {
@@ -532,17 +547,95 @@ func tablesFor(c swCase) (ts []*table, open bool) {
 	return ts, true
 }
 
+// setterCall: one call of SetGapOpenScore ("open"), SetGapExtendScore ("extend") or SetScore ("score")
+type setterCall struct {
+	Kind string  `json:"kind"`
+	A    float64 `json:"a"`
+	B    float64 `json:"b,omitempty"`
+}
+
+// effective: the scheme that a history of setter calls configures, by the documented semantics of
+// independent setters (last value wins, defaults otherwise)
+func effective(calls []setterCall) scheme {
+	s := scheme{Matrix: true, Open: -10, Extend: -0.5}
+	for _, c := range calls {
+		switch c.Kind {
+		case "open":
+			s.Open = c.A
+		case "extend":
+			s.Extend = c.A
+		case "score":
+			s.Matrix, s.Match, s.Mismatch = false, c.A, c.B
+		}
+	}
+	return s
+}
+
+// genCalls: a history ending in the configuration sch. The three final calls come in a drawn order;
+// before and between them, earlier calls with other values of the domain may occur
+func genCalls(t *rapid.T, sch scheme) []setterCall {
+	final := []setterCall{{Kind: "open", A: sch.Open}, {Kind: "extend", A: sch.Extend}}
+	if !sch.Matrix {
+		final = append(final, setterCall{Kind: "score", A: sch.Match, B: sch.Mismatch})
+	}
+	// earlier calls with other values of the domain, all overwritten by the final ones
+	var calls []setterCall
+	staleOf := map[string]bool{}
+	for k := rapid.IntRange(0, 2).Draw(t, "stale"); k > 0; k-- {
+		ext := -0.5 * float64(rapid.IntRange(1, 30).Draw(t, "staleext"))
+		switch rapid.IntRange(0, 2).Draw(t, "stalekind") {
+		case 0:
+			calls = append(calls, setterCall{Kind: "open", A: ext - 0.5*float64(rapid.IntRange(0, 20).Draw(t, "staleopen"))})
+		case 1:
+			calls = append(calls, setterCall{Kind: "extend", A: ext})
+		default:
+			if !sch.Matrix { // a call of SetScore cannot be undone: only when the final scheme has one too
+				calls = append(calls, setterCall{Kind: "score", A: 0.5 * float64(rapid.IntRange(1, 10).Draw(t, "stalematch")), B: -0.5 * float64(rapid.IntRange(1, 10).Draw(t, "stalemis"))})
+			}
+		}
+	}
+	for _, c := range calls {
+		staleOf[c.Kind] = true
+	}
+	// a setter whose value is the default may be left out (unless an earlier call changed it)
+	var kept []setterCall
+	for _, f := range final {
+		isDefault := (f.Kind == "open" && f.A == -10) || (f.Kind == "extend" && f.A == -0.5)
+		if isDefault && !staleOf[f.Kind] && rapid.Bool().Draw(t, "omitdefault") {
+			continue
+		}
+		kept = append(kept, f)
+	}
+	for _, k := range gen.Perm(t, len(kept), "callorder") {
+		calls = append(calls, kept[k])
+	}
+	return calls
+}
+
 func runLibrary(c swCase) (ob obs, al align.Alignment, s1, s2 align.Sequence, err error) {
 	s1 = align.NewSequence("query", []uint8(c.S1), "comment one")
 	s2 = align.NewSequence("subject", []uint8(c.S2), "comment two")
 	a := align.NewPwAligner(s1, s2, align.ALIGN_ALGO_SW)
-	if c.SetScoreFirst && !c.Sch.Matrix {
-		a.SetScore(c.Sch.Match, c.Sch.Mismatch)
-	}
-	a.SetGapOpenScore(c.Sch.Open)
-	a.SetGapExtendScore(c.Sch.Extend)
-	if !c.SetScoreFirst && !c.Sch.Matrix {
-		a.SetScore(c.Sch.Match, c.Sch.Mismatch)
+	if len(c.Calls) > 0 {
+		for _, call := range c.Calls {
+			switch call.Kind {
+			case "open":
+				a.SetGapOpenScore(call.A)
+			case "extend":
+				a.SetGapExtendScore(call.A)
+			case "score":
+				a.SetScore(call.A, call.B)
+			}
+		}
+	} else {
+		if c.SetScoreFirst && !c.Sch.Matrix {
+			a.SetScore(c.Sch.Match, c.Sch.Mismatch)
+		}
+		a.SetGapOpenScore(c.Sch.Open)
+		a.SetGapExtendScore(c.Sch.Extend)
+		if !c.SetScoreFirst && !c.Sch.Matrix {
+			a.SetScore(c.Sch.Match, c.Sch.Mismatch)
+		}
 	}
 	al, err = a.Alignment()
 	if err != nil {
@@ -561,6 +654,11 @@ func checkSW(c swCase) (o pbt.Outcome, err error) {
 	if len(c.S1) == 0 || len(c.S2) == 0 {
 		o.Skip = true
 		return o, nil
+	}
+	if len(c.Calls) > 0 {
+		if eff := effective(c.Calls); eff != c.Sch {
+			return o, fmt.Errorf("harness: the setter history configures %v, the case says %v", eff, c.Sch)
+		}
 	}
 	tables, openAlphabet := tablesFor(c)
 	ob, al, q1, q2, e := runLibrary(c)
@@ -622,6 +720,26 @@ tables:
 	}
 	classify(&o, c.S1, c.S2, c.Sch, in)
 	o.Class("alphabet=%s", c.Kind)
+	if len(c.Calls) > 0 {
+		order := ""
+		for _, call := range c.Calls {
+			order += call.Kind[:1]
+		}
+		if len(order) > 3 {
+			o.Class("setter-history:longer(repeated calls)")
+		} else {
+			o.Class("setter-history:%s", order)
+		}
+	}
+	if c.Sch.Extend < -10 && in.opt > 0 {
+		o.Class("extend<-10")
+		if in.longGap >= 2 {
+			o.Class("extend<-10,gap-run>=2")
+		}
+	}
+	if c.Kind == "dna" && strings.ContainsAny(c.S1+c.S2, "Xx") {
+		o.Class("nucleotide-pair-with-X")
+	}
 	if lower {
 		o.Class("lower-case-present:%s", caseReading)
 		if strings.ToLower(c.S1+c.S2) != c.S1+c.S2 {
@@ -667,6 +785,14 @@ func schemeGrid() []scheme {
 	return out
 }
 
+// callsInOrder: the three setters, once each, in the k-th of their six orders
+func callsInOrder(sch scheme, k int) []setterCall {
+	three := []setterCall{{Kind: "open", A: sch.Open}, {Kind: "extend", A: sch.Extend}, {Kind: "score", A: sch.Match, B: sch.Mismatch}}
+	orders := [][3]int{{0, 1, 2}, {1, 0, 2}, {2, 0, 1}, {0, 2, 1}, {1, 2, 0}, {2, 1, 0}}
+	o := orders[k%6]
+	return []setterCall{three[o[0]], three[o[1]], three[o[2]]}
+}
+
 func enumCheck(c swCase) (o pbt.Outcome, err error) {
 	o, err = checkSW(c)
 	if o.NonTrivial {
@@ -697,7 +823,7 @@ func TestExhaustive(t *testing.T) {
 			for _, s1 := range seqs {
 				for _, s2 := range seqs {
 					for k, sch := range grid {
-						if !yield(swCase{S1: s1, S2: s2, Kind: "dna", Sch: sch, SetScoreFirst: k%2 == 0}) {
+						if !yield(swCase{S1: s1, S2: s2, Kind: "dna", Sch: sch, Calls: callsInOrder(sch, k)}) {
 							return
 						}
 					}
@@ -824,7 +950,11 @@ func genScheme(t *rapid.T) scheme {
 		s.Match = 0.5 * float64(rapid.IntRange(1, 10).Draw(t, "match2"))
 		s.Mismatch = -0.5 * float64(rapid.IntRange(1, 10).Draw(t, "mismatch2"))
 	}
-	switch rapid.IntRange(0, 5).Draw(t, "gapkind") {
+	switch rapid.IntRange(0, 6).Draw(t, "gapkind") {
+	case 6: // the whole range, beyond the default opening score
+		s.Extend = -0.5 * float64(rapid.IntRange(1, 30).Draw(t, "ext2wide"))
+		s.Open = s.Extend - 0.5*float64(rapid.IntRange(0, 20).Draw(t, "openminus2wide"))
+		return s
 	case 0: // the defaults
 		s.Open, s.Extend = -10, -0.5
 	case 1: // linear
@@ -853,8 +983,12 @@ func genPair(t *rapid.T, letters string, maxLen int) (string, string) {
 	n := rapid.IntRange(1, maxLen).Draw(t, "n1")
 	s1 := gen.SeqN(t, pool, n)
 	var s2 string
-	if rapid.IntRange(0, 7).Draw(t, "independent") == 0 {
+	if k := rapid.IntRange(0, 9).Draw(t, "independent"); k == 0 {
 		s2 = gen.SeqN(t, pool, rapid.IntRange(1, maxLen).Draw(t, "n2"))
+	} else if k == 1 && maxLen >= 30 {
+		// a long copy with a single block of 1..4 residues removed or inserted in the middle: the
+		// flanks pay for a gap however expensive the gap scores of the domain are
+		s1, s2 = longIndelPair(t, letters, maxLen)
 	} else {
 		a := rapid.IntRange(0, n-1).Draw(t, "from")
 		b := rapid.IntRange(a, n-1).Draw(t, "to")
@@ -929,10 +1063,34 @@ func softMask(t *rapid.T, s1, s2 string) (string, string) {
 	return s1, s2 // upper case
 }
 
+// longIndelPair: a long sequence and its copy with one block of 1..4 residues removed or inserted in
+// the middle
+func longIndelPair(t *rapid.T, letters string, maxLen int) (s1, s2 string) {
+	n := rapid.IntRange(maxLen-10, maxLen).Draw(t, "nlong")
+	s1 = gen.SeqN(t, letters, n)
+	at := rapid.IntRange(n/2-4, n/2+4).Draw(t, "indelat")
+	k := rapid.IntRange(1, 4).Draw(t, "indellen")
+	if rapid.Bool().Draw(t, "indelins") {
+		s2 = s1[:at] + gen.SeqN(t, letters, k) + s1[at:]
+		if len(s2) > maxLen {
+			s2 = s2[len(s2)-maxLen:]
+		}
+	} else {
+		s2 = s1[:at] + s1[at+k:]
+	}
+	return
+}
+
 func genSW(t *rapid.T) swCase {
 	var c swCase
 	c.Sch = genScheme(t)
 	c.SetScoreFirst = rapid.Bool().Draw(t, "setscorefirst")
+	if rapid.IntRange(0, 2).Draw(t, "history") != 0 {
+		c.Calls = genCalls(t, c.Sch)
+		if len(c.Calls) == 0 { // every setter left out: the defaults with the built-in matrix
+			c.Calls = []setterCall{{Kind: "open", A: c.Sch.Open}}
+		}
+	}
 	if rapid.Bool().Draw(t, "protein") {
 		c.Kind = "aa"
 		c.S1, c.S2 = genPair(t, protLetters, 40)
@@ -946,13 +1104,21 @@ func genSW(t *rapid.T) swCase {
 	} else {
 		c.Kind = "dna"
 		letters := dnaLetters
-		switch rapid.IntRange(0, 5).Draw(t, "dnaletters") {
+		switch rapid.IntRange(0, 6).Draw(t, "dnaletters") {
 		case 0:
 			letters = dnaLetters + "U"
 		case 1, 2:
 			letters = "ACGT"
+		case 3: // every character the nucleotide index map knows
+			letters = dnaLetters + "UX"
+		case 4:
+			letters = "ACGTNX"
 		}
 		c.S1, c.S2 = genPair(t, letters, 40)
+		if c.Sch.Open+c.Sch.Extend < -10 && rapid.IntRange(0, 2).Draw(t, "flanks") == 0 {
+			// expensive gaps: long identical flanks, so that a gapped optimum exists all the same
+			c.S1, c.S2 = longIndelPair(t, "ACGT", 40)
+		}
 	}
 	c.S1, c.S2 = softMask(t, c.S1, c.S2)
 	return c
